@@ -22,6 +22,7 @@ RULE += ' Also: integers beyond the double range (2**1024, 2**1100 +- 1), aware 
 RULE += (' History family: a container is compared, edited in place (members replaced, added, removed, at any depth) and compared again; '
          'every comparison, operator and sort of the edited container must equal that of a freshly built equal container (no answer may '
          'depend on what was compared before).')
+RULE += ' Round 8: arrays of 16-40 elements that differ in one place by a boolean facing the number it equals in Python (also nested), containers nested 205-400 levels deep.'
 ASSUMPTIONS = [
     'NaN is excluded (the property quantifies over non-NaN values)',
     'the reference answer is asserted only where the statement fixes it: objects compared position-wise must have identical key sets',
